@@ -28,7 +28,7 @@ type TraceStats struct {
 	Findings []walk.Finding `json:"findings,omitempty"`
 }
 
-var algOf = map[string]string{"k1": "ecdsaWithSha256", "k2": "sha256WithRsaEncryption"}
+var algOf = map[string]string{"k1": "ecdsaWithSha256", "k2": "sha256WithRsaEncryption", "k3": "sha256WithRsaEncryption"}
 
 // RunTrace records n executions into out; hdr is a TLC output holding the header lines (trmeta).
 func RunTrace(hdr, out string, n int, seed int64) (*TraceStats, error) {
@@ -76,7 +76,7 @@ func RunTrace(hdr, out string, n int, seed int64) (*TraceStats, error) {
 	}
 	rng := rand.New(rand.NewSource(seed))
 	pick := func(xs []string) string { return xs[rng.Intn(len(xs))] }
-	keyNames := []string{"k1", "k2"}
+	keyNames := []string{"k1", "k2", "k3"} // ECDSA P-256, RSA-2048, RSA-3072
 	for i := 0; i < n; i++ {
 		ctx := env.Fork(e.Ctx)
 		genesis := s.project(ctx).Accts // accounts as they are before the execution: must never change
